@@ -242,3 +242,36 @@ func init() {
 			"if f.tab > 0 || mapEntryNeedsSpace(keyType, valType) {", "if f.tab > 0 {", "C02-M2", "separator after the colon"},
 	)
 }
+
+func init() {
+	addMutants(
+		Mutant{"C02", "c02-duplicate-field-first-wins", "zson/parser-values.go", "Parser.matchFields",
+			"\t\tif i, ok := seen[field.Name]; ok {\n\t\t\tfields[i] = *field\n\t\t} else {", "\t\tif _, ok := seen[field.Name]; ok {\n\t\t} else {", "C02-J1", "repeated field name"},
+		Mutant{"C02", "c02-decorated-set-as-array", "zson/analyzer.go", "Analyzer.convertSet",
+			"\t\treturn &Set{\n\t\t\tType:     cast,", "\t\treturn &Array{\n\t\t\tType:     cast,", "C02-S3", "convertSet returns"},
+		Mutant{"C11", "c11-validate-skips-sets", "value.go", "Value.Validate",
+			"\t\t\treturn checkSet(typset, body)\n", "\t\t\tif err := checkSet(typset, body); err != nil {\n\t\t\t\treturn err\n\t\t\t}\n\t\t\treturn SkipContainer\n", "C11-V3", "skips a container"},
+		Mutant{"C11", "c11-vng-empty-metadata-deref", "vng/object.go", "readMetadata",
+			"\tif val == nil {\n\t\treturn nil, errors.New(\"corrupt VNG: metadata section is empty\")\n\t}\n", "", "C11-R2", "readMetadata"},
+		Mutant{"C17", "c17-empty-magic-deref", "lake/root.go", "Root.readLakeMagic",
+			"\tif val == nil {\n\t\treturn errors.New(\"corrupt lake version file: empty\")\n\t}\n", "", "C17-M1", "readLakeMagic"},
+	)
+}
+
+func init() {
+	addMutants(
+		Mutant{"C02", "c02-enum-symbol-always-bare", "zson/formatter.go", "Formatter.formatValue",
+			"if sym := t.Symbols[zed.DecodeUint(bytes)]; IsIdentifier(sym) {", "if sym := t.Symbols[zed.DecodeUint(bytes)]; sym != \"\\x00\" {", "C02-Q2", "writes an enum symbol bare"},
+	)
+}
+
+func init() {
+	addMutants(
+		Mutant{"C09", "c09-or-loops-over-slots", "vector/bool.go", "Or",
+			"for i := range out.Bits {", "for i := range a.Len() {", "C09-B1", "vector.Or indexes Bits"},
+		Mutant{"C10", "c10-fuse-null-partial-kept", "runtime/sam/expr/agg/fuse.go", "fuse.ConsumeAsPartial",
+			"\tif partial.IsNull() {\n\t\t// The partial result of a group that consumed no value.\n\t\treturn\n\t}\n", "", "C10-P4", "agg.fuse).ConsumeAsPartial"},
+		Mutant{"C03", "c03-vcache-no-enum-values", "runtime/vcache/loader.go", "loader.loadVals",
+			"case *zed.TypeOfUint8, *zed.TypeOfUint16, *zed.TypeOfUint32, *zed.TypeOfUint64, *zed.TypeEnum:", "case *zed.TypeOfUint8, *zed.TypeOfUint16, *zed.TypeOfUint32, *zed.TypeOfUint64:", "C03-K2", "loadVals type dispatch lacks TypeEnum"},
+	)
+}
